@@ -85,6 +85,9 @@ META = {
  'C12e-filter-argsort-inlined': ('C12', 'left/linear/right mode, a multi-member cluster whose score order is not an involution (>= 3 members on a non-monotone stretch, >= 4 on a decreasing one): kr.rank inlined as np.argsort in filter_clusters', False),
  'C14e-width-gate-nonstrict': ('C14', 'a retained segment whose normalised width equals 2*tx exactly as a float (and height above ty): candidate gate pdx > 2tx became >=', False),
  'C18e-upper-hull-keeps-collinear': ('C18', '>= 3 exactly collinear points on the upper hull itself (pop condition <= 0 became < 0 in graham_scan_upper)', False),
+ 'C04e-r2-equal-ends-shortcut': ('C04', 'Metrics.r2 and an index range whose first and last heights are exactly equal while its interior is not flat (U shape): early accept without computing the cost', False),
+ 'C05e-partial-resort-wrong-child': ('C05', '>= 7 points and k >= 6: a split whose dearer child outranks the stack top while the cheaper one does not, followed by splits that skip the re-sort (partial re-sort tests the wrong child): needed the 7-point stack-order slice STACK7 (pool curves had <= 6 points, L1 n <= 6)', True),
+ 'C16e-r2-degenerate-wrong-operand': ('C16', 'metrics.r2 with exactly constant y and y_hat != y (1 - rss became 1 - tss in the tss == 0 branch)', False),
 }
 for name,(pid, needs, strengthened) in META.items():
     d='/verif/seeded/'+name
